@@ -244,3 +244,30 @@ class Native:
 
     def one(self, *req, **kw):
         return self.batch([list(req)], **kw)[0]
+
+
+# ------------------------------------------------------------------------------------------ serde oracle
+def serde_case_path():
+    """serde_derive's own internals/case.rs, in the version pinned by /repo/Cargo.lock"""
+    lock = open(os.path.join(REPO, 'Cargo.lock')).read()
+    m = re.search(r'name = "serde_derive"\nversion = "([^"]+)"', lock)
+    if not m:
+        raise BuildError('serde_derive not in Cargo.lock')
+    ver = m.group(1)
+    base = os.path.expanduser('~/.cargo/registry/src')
+    for d in sorted(os.listdir(base)):
+        p = os.path.join(base, d, f'serde_derive-{ver}', 'src', 'internals', 'case.rs')
+        if os.path.exists(p):
+            return p, ver
+    raise BuildError(f'serde_derive-{ver} sources not found in the cargo registry')
+
+
+def serde_case_mir():
+    src, ver = serde_case_path()
+    d = os.path.join(CACHE, 'oracle-serde-case')
+    os.makedirs(os.path.join(d, 'src'), exist_ok=True)
+    with open(os.path.join(d, 'Cargo.toml'), 'w') as fh:
+        fh.write('[package]\nname = "serde_case_oracle"\nversion = "0.0.0"\nedition = "2021"\n[workspace]\n')
+    with open(os.path.join(d, 'src', 'lib.rs'), 'w') as fh:
+        fh.write(f'#![allow(dead_code)]\n#[path = "{src}"]\npub mod case;\n')
+    return mir_dump(os.path.join(d, 'Cargo.toml'), 'serde_case_oracle', (), tag='serdecase', key_hash=tree_hash(src)), ver
